@@ -15,6 +15,7 @@ class Gen:
         self.units = [u for u in units if ns[u] not in self.scales and ns[u].dimension is not measured.Temperature
                       and ns[u] is not measured.One and ns[u].prefix.base in (0, 10)]
         self.prefixes = [p for p in prefixes if ns[p].base == 10]
+        self.prefixes2 = [p for p in prefixes if ns[p].base == 2]
         self.bydim = {}
         for u in self.units:
             self.bydim.setdefault(ns[u].dimension, []).append(u)
@@ -40,6 +41,13 @@ class Gen:
             d = rng.choice(sorted(self.zoo, key=str))
             a, b = rng.sample(self.zoo[d], 2)
             return a, b
+        if self.prefixes2 and rng.random() < 0.08:
+            # one unit under a binary (IEC) and a decimal (SI) prefix: the two prefixes share no base
+            u = rng.choice([x for x in self.units if self.ns[x].prefix.base == 0] or self.units)
+            e = rng.choice([1, 1, 1, 2, -1])
+            a = self.factor("(%s*%s)" % (rng.choice(self.prefixes2), u), e, prefix=False)
+            b = self.factor("(%s*%s)" % (rng.choice(self.prefixes), u), e, prefix=False) if rng.random() < 0.8 else self.factor(u, e, prefix=False)
+            return (a, b) if rng.random() < 0.5 else (b, a)
         k = rng.choice([1, 1, 2, 2, 3])
         src, dst = [], []
         for _ in range(k):
